@@ -476,7 +476,7 @@ def mk_http_parser(u: U, *, is_request=True):
         "_max_msg_queue_size": u.int("max_msg_queue_size", 0), "_msg_in_flight": u.int("msg_in_flight", 0),
         "lax": False,
     }, {"parse_message": parse_message},
-        init=(MOD, "HttpParser.__init__", ("PROTOCOL", None, 65536), {}),
+        init=(MOD, "HttpParser.__init__", ("PROTOCOL", None, 65536), {}), real=(MOD, "HttpParser"),
         const=("protocol", "loop", "timer", "max_line_size", "max_field_size", "max_headers", "_max_msg_queue_size",
                "read_until_eof", "lax", "_limit", "_headers_parser", "_auto_decompress", "code", "method",
                "payload_exception", "response_with_body"))
@@ -508,8 +508,26 @@ def http_feed_data(u: U):
     nlines0 = p._lines.sym_len()
     inflight0 = p._msg_in_flight
     mk_sr = lambda *a, **k: "STREAMREADER"
+
+    def mk_pp(payload, **kw):
+        # the body parser of a message works under the limits of the connection's parser (its own __init__ contract,
+        # C09.payload_parser.init, stores what it is given)
+        same = lambda k, v: k in kw and (kw[k] is v or (not is_sym(kw[k]) and not is_sym(v) and kw[k] == v))
+        u.check("C10.limit.body_parser_inherits_limits",
+                same("max_line_size", p.max_line_size) and same("max_field_size", p.max_field_size)
+                and same("limit", p._limit) and same("headers_parser", p._headers_parser) and "max_trailers" in kw,
+                "the payload parser created for a message body is given this parser's max_line_size, max_field_size, read "
+                "limit and header parser (chunk-size lines and trailer fields are held to the configured limits)",
+                witness={"kwargs": sorted(kw)})
+        if "max_trailers" in kw and head:
+            u.check("C10.limit.trailers_share_header_budget", kw["max_trailers"] == p.max_headers - (head["nlines"] + 1),
+                    "trailer fields are limited to what the header block left of max_headers")
+        return _PP(**kw)
+
+    # helper methods of the real class (followed through real=) see the same stand-ins for the collaborators
+    u.module_globals[MOD] = {"StreamReader": mk_sr, "HttpPayloadParser": mk_pp}
     f = u.load(MOD, "HttpParser.feed_data",
-               globals={"StreamReader": mk_sr, "HttpPayloadParser": lambda payload, **kw: _PP(**kw),
+               globals={"StreamReader": mk_sr, "HttpPayloadParser": mk_pp,
                         "_is_supported_upgrade": lambda h: u.bool("supported_upgrade"), "EMPTY_PAYLOAD": "EMPTY_PAYLOAD",
                         "set_exception": lambda *a: None})
     head = {}
@@ -583,9 +601,35 @@ def http_feed_data(u: U):
                     "to the request parser as the start of the next request",
                     known=[("F1a", m.method == "HEAD")], witness={"method": m.method})
 
+    def skip_obligations(L):
+        # an iteration in the message head that neither buffered a line nor emitted a message only skipped bytes in
+        # front of a start line: RFC 9112 2.2 lets a server skip empty lines (CRLF) there and nothing else - a bare CR
+        # or LF is not an empty line
+        if head.get("pp") is not None or p._payload_parser is not None:
+            return
+        if not u.branch(And(Not(head["upgraded"]), head["nlines"] == 0, p._lines.sym_len() == 0,
+                            L["start_pos"] > head["start_pos"]), "skipped_bytes"):
+            return
+        if len(msgs) != head["nmsgs"]:
+            return
+        hd, a, b = head["data"], tint(head["start_pos"]), tint(L["start_pos"])
+        j = z3.Int("skip.j")
+        crlf = z3.ForAll([j], z3.Implies(z3.And(j >= 0, j < b - a),
+                                         hd._byte_term(a + j) == z3.If(j % 2 == 0, z3.IntVal(13), z3.IntVal(10))))
+        u.check("C01.skip.only_empty_lines", mk_bool(z3.And((b - a) % 2 == 0, crlf)),
+                "the only bytes dropped in front of a start line are whole CRLF sequences (empty lines); a bare CR or LF "
+                "there is not skipped but left to be refused", witness={"skipped": mk_int(b - a)})
+
+    def retained_obligations():
+        u.check("C10.limit.header_count", p._lines.sym_len() <= p.max_headers,
+                "the header lines buffered for an unfinished message head never number more than max_headers: the count is "
+                "checked as each line is buffered, not when the block ends", witness={"lines": p._lines.sym_len()})
+
     def at_back(L):
         line_obligations(L)
         body_obligations(L)
+        skip_obligations(L)
+        retained_obligations()
         u.check("C10.variant.http.progress", Or(L["start_pos"] > head["start_pos"], head["pp"] is not None,
                                                 p._payload_parser is not None, L["data_len"] != blen(head["data"])),
                 "every iteration of the message-head loop consumes at least one byte")
@@ -622,6 +666,7 @@ def http_feed_data(u: U):
     messages, upgraded, rest = out.value
     u.cover("C03.http.exit")
     body_obligations({"messages": messages})
+    retained_obligations()
     if not head:
         return
     # ---- exits that leave a partial message head behind
